@@ -13,4 +13,5 @@ class Number(internal.SingleValueRawTokenModel[decimal.Decimal]):
     
     @classmethod
     def _format_value(cls, value: decimal.Decimal) -> str:
-        return format(value, 'f')
+        # plain notation for a Decimal (str() may use an exponent); an int prints as it is
+        return format(value, 'f') if isinstance(value, decimal.Decimal) else str(value)
